@@ -574,7 +574,7 @@ func ruleOrder(c *Ctx) {
 			if full == "io/ioutil.ReadDir" || full == "os.ReadDir" {
 				hasReadDir = true
 			}
-			if full == "sort.Ints" {
+			if full == "sort.Ints" || full == "slices.Sort" || isAscendingSortCall(ci) {
 				sortCalls = append(sortCalls, ci)
 			}
 		})
@@ -873,3 +873,78 @@ func ruleCRC(c *Ctx) {
 }
 
 var _ = strings.HasPrefix
+
+
+// isAscendingSortCall recognises sort.Slice / sort.SliceStable with a comparator that is literally
+// "x[i] < x[j]" (or "x[j] > x[i]") over its two index parameters, and sort.Sort / sort.Stable of a
+// sort.IntSlice conversion. Any other comparator is not accepted as an ascending sort.
+func isAscendingSortCall(ci ssa.CallInstruction) bool {
+	cal := ci.Common().StaticCallee()
+	if cal == nil {
+		return false
+	}
+	switch cal.String() {
+	case "sort.Slice", "sort.SliceStable":
+		if len(ci.Common().Args) != 2 {
+			return false
+		}
+		var less *ssa.Function
+		switch v := ci.Common().Args[1].(type) {
+		case *ssa.MakeClosure:
+			less, _ = v.Fn.(*ssa.Function)
+		case *ssa.Function:
+			less = v
+		}
+		if less == nil || len(less.Params) != 2 || len(less.Blocks) == 0 {
+			return false
+		}
+		idxOf := func(v ssa.Value) int {
+			u, ok := v.(*ssa.UnOp)
+			if !ok || u.Op != token.MUL {
+				return -1
+			}
+			ia, ok := u.X.(*ssa.IndexAddr)
+			if !ok {
+				return -1
+			}
+			for i, p := range less.Params {
+				if ia.Index == ssa.Value(p) {
+					return i
+				}
+			}
+			return -1
+		}
+		okAll, n := true, 0
+		for _, b := range less.Blocks {
+			for _, in := range b.Instrs {
+				r, ok := in.(*ssa.Return)
+				if !ok {
+					continue
+				}
+				n++
+				bo, ok := r.Results[0].(*ssa.BinOp)
+				if !ok {
+					okAll = false
+					continue
+				}
+				x, y := idxOf(bo.X), idxOf(bo.Y)
+				if !((bo.Op == token.LSS && x == 0 && y == 1) || (bo.Op == token.GTR && x == 1 && y == 0)) {
+					okAll = false
+				}
+			}
+		}
+		return okAll && n > 0
+	case "sort.Sort", "sort.Stable":
+		if len(ci.Common().Args) != 1 {
+			return false
+		}
+		mi, ok := ci.Common().Args[0].(*ssa.MakeInterface)
+		if !ok {
+			return false
+		}
+		if nt, ok := mi.X.Type().(*types.Named); ok && nt.Obj().Pkg() != nil && nt.Obj().Pkg().Path() == "sort" && nt.Obj().Name() == "IntSlice" {
+			return true
+		}
+	}
+	return false
+}
